@@ -70,4 +70,8 @@ CLAIMED["C12"] = {"text": "Hashing writers/readers and checksum verifiers are sp
                   "design_ref": "3/C12", "note": _TB + " Concrete digests are ground truth from Go crypto.",
                   "technique": "TLC model checking over ideal digests; TLC-generated behaviours replayed into hashio, step traces validated by TLC"}
 
+CLAIMED["C11"] = {"text": "The NewParagraphReader accept/reject flow is a TLA+ state machine over ideal signatures (key, signed text) with one action per step of the code (Peek, Decode, NilBypass, Verify, Read); TLC checks 'signer => verified', 'accepted with a keyring => verified block only' and 'nothing after the block is returned' over all abstract scenarios. Real documents are clearsigned with real keys and damaged: every (sampled) byte position x {substitute, delete, insert, truncate}, splices before/inside/after, a second block, a dropped signature, all keyring compositions; ground truth about the damaged bytes (armor decodes? canonical text unchanged? signature packet unchanged?) is computed independently of go-debian and TLC applies the acceptance rules, including the mandatory positive path.",
+                  "design_ref": "3/C11", "note": _TB + " x/crypto OpenPGP is ground truth for classification.",
+                  "technique": "TLC model checking of the verification flow over ideal signatures; byte-level fault enumeration on real clearsigned files judged by TLC"}
+
 NOT_APPLICABLE = {}
